@@ -585,6 +585,38 @@ class get_type_c:
     serves = ['C18', 'C07']
 
 
+def make_cte_statement_shape(recursive, idlist):
+    """Statement  [ws comment ws] WITH ws [RECURSIVE ws] <Identifier | IdentifierList> ws <DML keyword> ws rest"""
+    def mk(ex, st):
+        W = ex.W
+        T, sql = W.T, W.sql
+        cm = _mk_leaf(ex, st, None, 'lead_comment', (T.Comment.Single, T.Comment.Multiline))
+        wth = _mk_leaf(ex, st, None, 'kw_with', (T.Keyword.CTE,), normalized='WITH')
+        dml = _mk_leaf(ex, st, None, 'kw_dml', (T.Keyword.DML,))
+        rest = _mk_leaf(ex, st, None, 'rest', (T.Name, T.Wildcard))
+        name = _mk_leaf(ex, st, None, 'cte_name', (T.Name,), name_leaf=True)
+        defs = (lambda g: _mk_node(ex, st, sql.IdentifierList if idlist else sql.Identifier, 'cte_defs', [name], g))
+        items = [_ws1(ex, st, 'w0'), cm, _ws1(ex, st, 'w1'), wth, _ws1(ex, st, 'w2')]
+        if recursive:
+            items += [_mk_leaf(ex, st, None, 'kw_recursive', (T.Keyword,), normalized='RECURSIVE'), _ws1(ex, st, 'w3')]
+        items += [defs, _ws1(ex, st, 'w4'), dml, _ws1(ex, st, 'w5'), rest]
+        st.ghost['DML'] = dml
+        return _mk_node(ex, st, sql.Statement, 'self', items)
+    return mk
+
+
+GET_TYPE_SHAPE_CASES = []
+for _rec in (False, True):
+    for _il in (False, True):
+        _case = 'shape: comment WITH %s%s DML' % ('RECURSIVE ' if _rec else '', 'IdentifierList' if _il else 'Identifier')
+        _ns = {'__doc__': 'C18 "a statement that begins with WITH has the type of the DML keyword that follows the CTE definitions, '
+                          'leading whitespace and comments ignored": get_type() on an explicit statement, case: ' + _case,
+               'exec_class': HeapExec, 'params': {'self': make_cte_statement_shape(_rec, _il)}, 'requires': [],
+               'ensures': ['result == DML.normalized'], 'raises': [], 'shape_case': True, 'serves': ['C18']}
+        REG.add('sqlparse.sql.Statement.get_type', _case, type('get_type_shape', (), _ns))
+        GET_TYPE_SHAPE_CASES.append(('sqlparse.sql.Statement.get_type', _case))
+
+
 # --------------------------------------------------------------------------------- utils.remove_quotes (C12)
 
 @contract('sqlparse.utils.remove_quotes')
